@@ -25,6 +25,9 @@ partial def loop (h : IO.FS.Stream) (out : IO.FS.Stream) (st : Option ScnState) 
       let (s, lines) := startScenario rest
       for x in lines do out.putStrLn x
       loop h out (some s)
+    | "CORE" :: _ =>
+      for x in coreTable do out.putStrLn x
+      loop h out none
     | "INFO" :: rest =>
       for x in infoOf rest do out.putStrLn x
       loop h out none
